@@ -750,6 +750,15 @@ def oracle_cases(ctx, deep):
             spec = {'inputs': inputs, 'entries': entries_of(rng, groups)}
             layout(rng, spec, len(spec['entries']))
             cases.append({'class': 'random-split', 'spec': spec})
+    if deep:
+        # one pooled group of 200 000 trials with more than 2^17 flagged bits on a logical qubit: counters that
+        # are narrower than the totals (uint8 / uint16 arithmetic on the stacked bit arrays) wrap here
+        inputs = [{'k': 1, 'L': 3, 'variant': 0}]
+        trials = gen_trials(rng, 1, 200000, 'dense')
+        groups = [{'inp': 0, 'rate': RATES[0], 'trials': trials}]
+        spec = {'inputs': inputs, 'entries': entries_of(rng, groups, max_parts=12)}
+        layout(rng, spec, len(spec['entries']))
+        cases.append({'class': 'large-pool', 'spec': spec})
     # a partition that contains an empty part (a run that saved before its first trial)
     for k in (1, 2):
         e1 = {'inp': 0, 'rate': '0.1', 'wall': '1/2', 'ee': ['1' + '0' * (2 * k - 1)], 'su': '0', 'cs': '1'}
